@@ -17,7 +17,7 @@ Theorem C18_b64_encode_shape :
   forall b : list N, Forall (fun x => x < 256) b ->
     length (encode_spec b) = (4 * ((length b + 2) / 3))%nat /\
     Forall (fun c => in_alphabet c = true \/ c = rfc_pad) (encode_spec b).
-Proof. intros b Hb. split; [now apply encode_spec_length | now apply encode_spec_symbols]. Qed.
+Proof. exact encode_shape. Qed.
 
 (* The decoder inverts the encoder on every byte string. *)
 Theorem C18_b64_decode_encode :
@@ -56,7 +56,7 @@ Theorem C18_b64_alphabet_is_table1 :
                           | Some v => SVal v
                           | None => if c =? rfc_pad then SPad else SBad
                           end).
-Proof. split; [exact alpha_rfc | exact classify_spec]. Qed.
+Proof. exact alphabet_is_table1. Qed.
 
 (* The decoder as it was before the fix (F28) violates the property in all three ways:
    "+/+/" is well-formed but decoded to other bytes than it denotes; "A" is malformed but accepted;
